@@ -109,8 +109,8 @@ type qJoin struct {
 }
 
 type qSort struct {
-	key  qRef
-	dir  string // "" | ASC | DESC
+	key qRef
+	dir string // "" | ASC | DESC
 }
 
 type qQuery struct {
@@ -122,7 +122,7 @@ type qQuery struct {
 	limit      int // -1 absent
 	offset     int // -1 absent
 	limitFirst bool
-	mayReject  bool // the statement may be rejected (e.g. as ambiguous); if it is answered, the answer must be right
+	mayReject  bool   // the statement may be rejected (e.g. as ambiguous); if it is answered, the answer must be right
 	lead       string // blanks in front of the text (shifts tokens relative to the scanner's buffer boundaries)
 }
 
@@ -193,16 +193,16 @@ func (q *qQuery) sql() string {
 type rField struct{ table, name string }
 
 type refResult struct {
-	err      string // non-empty: the query must be rejected (any error value)
+	err      string   // non-empty: the query must be rejected (any error value)
 	header   []string // expected output column names ("" = any name)
 	rows     [][]any
-	ordered  bool // rows is an exact sequence (no ORDER BY: insertion order)
+	ordered  bool  // rows is an exact sequence (no ORDER BY: insertion order)
 	sortKeys []int // output column indexes of the ORDER BY keys
 	sortDesc []bool
 	// with ORDER BY: `rows` is the full sorted candidate set before offset/limit
 	offset, limit int
-	multiset bool // compare as a multiset (joins, aggregates)
-	maxAvgRows int64 // largest number of rows that went into one AVG value
+	multiset      bool  // compare as a multiset (joins, aggregates)
+	maxAvgRows    int64 // largest number of rows that went into one AVG value
 }
 
 func lookupField(fields []rField, r qRef) (int, string) {
